@@ -96,6 +96,11 @@ def _high_low(draw):
         sel = list(range(D))
     else:
         sel = [draw(st.integers(0, D - 1))]
+    if c['kind'] == 'sample_i' and draw(st.sampled_from([True, False, False])):
+        # the sample went through the generic transform with a NumPy function first: its limits moved with its events
+        c['post'] = draw(st.sampled_from(['sqrt', 'log1p']))
+        if draw(st.booleans()):
+            lo = hi = None                      # both thresholds defaulted to the (moved) limits
     return dict(arm='high_low', c=c, form=form, sel=sel, spell=[draw(st.sampled_from([True, False, 'neg'])) for _ in sel], low=lo, high=hi)
 
 
@@ -190,6 +195,14 @@ def check(case, obs):
     c = case['c']
     data, ranges = _materialise(c)
     cells = c['cells']
+    if c.get('post') and c['kind'] == 'sample_i':
+        import FlowCal.transform
+        fn = dict(sqrt=np.sqrt, log1p=np.log1p)[c['post']]
+        data = FlowCal.transform.transform(data, None, fn)
+        # the same NumPy function evaluated on the same numbers (not a model of it: C07 owns "limits follow events")
+        cells = [[float(fn(np.float64(v))) for v in row] for row in cells]
+        ranges = [[float(fn(np.float64(r[0]))), float(fn(np.float64(r[1])))] for r in ranges]
+        obs.label('post:' + c['post'])
     N = len(cells)
     obs.label('arm:' + arm, 'kind:' + c['kind'], 'N=0' if N == 0 else ('N=1' if N == 1 else 'N>1'))
     before = fingerprint(data)
